@@ -1,6 +1,7 @@
 CONSTANTS
   SelfPath = TRUE
 SPECIFICATION CSpec
+INVARIANT CompileOK
 INVARIANT Partial
 INVARIANT FixedPoint
 INVARIANT NoFireOverridden
